@@ -21,6 +21,7 @@ from ..astutil import (text, access_path, calls_in, func_params, stmts_of, is_co
                        is_method_call, store_targets, fold)
 from ..loader import where, AnalysisError
 from ..paths import Enumerator
+from ..terms import Terms, PathEnv
 
 
 def drop_outside_domain(paths, var, domain):
@@ -120,7 +121,8 @@ def check_add(ctx, repo, cls):
     else:
         ctx.inconclusive("R3", C, where(mod, lp), "iteration source %s not recognised" % text(lp.iter), key="snapshot")
 
-    paths = Enumerator(loop_counts=(0, 1, 2)).function_paths(fn)
+    TT = Terms(fn)
+    paths = Enumerator(loop_counts=lambda n_: (0, 1, 2) if n_ is lp else (0, 1)).function_paths(fn)
     paths = drop_outside_domain(paths, flag, (0, 1, 2))
     ctx.count("paths_add", len(paths))
     bad = {"R1": None, "R2": None, "R3": None}
@@ -199,12 +201,13 @@ def check_add(ctx, repo, cls):
                 if isinstance(s, ast.AugAssign) and isinstance(s.target, ast.Name) and isinstance(s.op, ast.Add) and is_const(s.value) \
                         and s.target.id in kvar_val:
                     kvar_val[s.target.id] += const_value(s.value)
-                if isinstance(s, ast.Assign) and any(access_path(t) == content for t in s.targets) and isinstance(s.value, ast.ListComp) \
-                        and len(s.value.generators) == 1 and access_path(s.value.generators[0].iter) == content \
-                        and len(s.value.generators[0].ifs) == 1:
-                    g = s.value.generators[0]
+                sval = TT.expand(s.value, at=s) if isinstance(s, ast.Assign) and any(access_path(t) == content for t in s.targets) else None
+                if sval is not None and isinstance(sval, ast.ListComp) \
+                        and len(sval.generators) == 1 and access_path(sval.generators[0].iter) == content \
+                        and len(sval.generators[0].ifs) == 1:
+                    g = sval.generators[0]
                     cnd = g.ifs[0]
-                    if isinstance(cnd, ast.Compare) and isinstance(cnd.ops[0], ast.IsNot) and access_path(s.value.elt) == access_path(g.target) \
+                    if isinstance(cnd, ast.Compare) and isinstance(cnd.ops[0], ast.IsNot) and access_path(sval.elt) == access_path(g.target) \
                             and {access_path(cnd.left), access_path(cnd.comparators[0])} == {access_path(g.target), member}:
                         it_deleted += 1
                         n_deleted += 1
@@ -237,9 +240,11 @@ def check_add(ctx, repo, cls):
                             bad["R3"] = bad["R3"] or (p, "list.remove(%s) deletes the first member that is == to it; Individual equality compares design vectors, so with two members sharing a design vector (different costs) a non-dominated member is removed and the dominated one stays" % member, s)
                         elif mc[1] in ("pop", "remove", "clear", "insert", "extend"):
                             bad["R3"] = bad["R3"] or (p, "unexpected mutation of the content list: %s" % text(c), s)
-            if in_loop and it_flag is not None and e.kind in ("stmt", "break") and not rejected:
+            if in_loop and it_flag is not None and e.kind in ("stmt", "break", "return") and not rejected:
                 if it_flag == old_wins or (it_flag == 0 and it_eq is True):
                     rejected = True
+        if in_loop and not rejected and (it_flag == old_wins or (it_flag == 0 and it_eq is True)):
+            rejected = True     # the path leaves the function from inside the scan with the verdict decided
         ret = p.node.value if (p.outcome == "return" and p.node is not None) else None
         retv = const_value(ret) if (ret is not None and is_const(ret)) else None
         if retv is True and inserted != 1:
